@@ -19,10 +19,10 @@ context of the tier.  Four families, each aimed at one group of rewrites:
 Every program is `f(xs, ys, k)`; `xs`, `ys` are lists of the same length (the
 length is the input), `k` a small positive integer (the variable split factor);
 `KF` is a module-level constant each program reads, so it is a *free variable*
-of the function (the documented form of a variable factor).  The lists are never
-rebound, only mutated in place, so the length of every loop's iterable is a
-function of the input length the check can evaluate exactly (STRICT's
-precondition).
+of the function (the documented form of a variable factor).  The lists are only
+mutated in place or rebound to a new list of the same length, so the length of
+every loop's iterable is a function of the input length the check can evaluate
+exactly (STRICT's precondition).
 
 User variable names come from a naming scheme; two of the schemes use exactly
 the names the rewrites generate (`t n i m j`, `_src _i acc b`) and one uses the
@@ -153,6 +153,8 @@ def _body_pool(lst: str):
         ('tgt', ['{X} = {X} + {C}'], '', ('reassign-target',)),
         ('mut', [f'{last} = {{A}} + 1'], '', ('mutate',)),
         ('ret', ['if {X} > 4:', '    ' + RET], '', ('early-return',)),
+        # rebinds the name the loop iterates over to a new list of the same length
+        ('rebind', [f'{lst} = [{{V}} * 2 for {{V}} in {lst}]'], '', ('rebind-source',)),
         ('cnd', ['if {X} > 2:', '    {C} = {C} + {X}'], '', ()),
         ('idx', ['{A} = {A} + {I} * {X}'], 'I', ()),
         ('yy', ['{C} = 2 * {C} + {Y}'], 'Y', ()),
@@ -175,7 +177,7 @@ def _body_pool(lst: str):
     ]
 
 
-BODY_CORE = ('acc', 'tgt', 'mut', 'ret', 'cnd', 'idx', 'nest', 'nestsame')
+BODY_CORE = ('acc', 'tgt', 'mut', 'ret', 'rebind', 'cnd', 'idx', 'nest', 'nestsame')
 
 
 def _useful(seq):
@@ -215,6 +217,8 @@ def for_programs():
                     written.add('ys')
             if written & set(srcs):
                 mut_src = 'y'
+        if mut_src == 'n' and 'rebind' in seq_tags and (('{Z}' if key.startswith('loc') else 'xs') in srcs):
+            mut_src = 'rebind'
         tags = {'family': 'F', 'header': key, 'iter': kind, 'body': '+'.join(seq_tags), 'scheme': scheme,
                 'ctx': wrap or 'ambient', 'mut': mut_src, 'site': 'stmt',
                 'features': '+'.join(sorted(feats)) or '-'}
@@ -240,7 +244,8 @@ def for_programs():
         done = set()
         # (1) all sequences of length <= 2 over the core pool, scheme `loop`, ambient context
         for seq in seqs(core_tags, 2, binds):
-            core = key in HEADERS_MAIN_Q or ((q_header or q_static) and len(seq) == 1) or \
+            core = (key in HEADERS_MAIN_Q and 'nestsame' not in seq[:len(seq) - 1 or 1] and
+                    not (len(seq) == 2 and 'nestsame' in seq)) or ((q_header or q_static) and len(seq) == 1) or \
                 (q_static and seq in (('mut', 'acc'), ('acc', 'mut'), ('nest', 'acc'), ('ret', 'acc')))
             emit(hdr, seq, pool, 'loop', None, core)
             done.add((seq, 'loop', None))
@@ -254,6 +259,9 @@ def for_programs():
             for scheme, wrap in combos:
                 if ((tag,), scheme, wrap) in done:
                     continue
+                if 'nested' in pool[tag][3] and ((scheme, wrap) in (('loop', 'p2'), ('iter', 'fix2'), ('plain', None))
+                                                 or (is_static and scheme != 'loop')):
+                    continue      # quadratic-cost bodies: fewer scheme x context combinations
                 core = q_header and ((tag in BODY_CORE and (scheme, wrap) in
                                       (('loop', 'fix2'), ('iter', None), ('iter', 'fix2'), ('plain', None)))
                                      or (scheme, wrap) == ('loop', None)
@@ -262,19 +270,19 @@ def for_programs():
                 done.add(((tag,), scheme, wrap))
         # (3) all sequences of length 2 over the whole pool, main headers and one static one
         sch = 'iter' if kindof(hdr) in ('zip', 'enumerate', 'enumerate-zip') else 'loop'
-        if main or key == 'loc5':
+        if key in ('xs', 'zip', 'enumzip', 'range', 'loc5'):
             for seq in seqs(avail, 2, binds):
                 if (seq, sch, None) not in done:
                     emit(hdr, seq, pool, sch, None, False)
                     done.add((seq, sch, None))
         # (4) length 3 over the core pool
-        if key in ('xs', 'zip', 'enumzip', 'loc5'):
+        if key in ('xs', 'enumzip', 'loc5'):
             for seq in seqs(core_tags, 3, binds):
                 if len(seq) == 3:
                     emit(hdr, seq, pool, sch, None, False)
         # (5) core sequences of length 2 under a narrow context
         for seq in seqs(core_tags, 2, binds):
-            if len(seq) == 2 and not is_static:
+            if len(seq) == 2 and main:
                 emit(hdr, seq, pool, 'loop', 'fix2', False)
     return out
 
@@ -497,7 +505,7 @@ def all_programs(tier: str, seed: int = 0):
             rest.append(p)
     extra = []
     if tier == 'quick' and rest:
-        m = max(1, len(rest) // 100)         # ~100 extra programs
+        m = max(1, len(rest) // 64)          # ~64 extra programs
         extra = [p for i, p in enumerate(rest) if i % m == seed % m]
         for p in extra:
             p.tags = dict(p.tags, slice='seed')
